@@ -164,6 +164,11 @@ fn op_progs(op: &Op) -> Vec<Op> {
                 out.push(Op::Exec { prog: p, ctx: ctx.clone() });
             }
         }
+        Op::ExecSole { prog, slot } => {
+            for p in prog_candidates(prog) {
+                out.push(Op::ExecSole { prog: p, slot: *slot });
+            }
+        }
         Op::Parse { prog } => {
             for p in prog_candidates(prog) {
                 out.push(Op::Parse { prog: p });
